@@ -14,6 +14,7 @@ type LeafSpec struct {
 	Sort   Sort
 	GoT    types.Type // Go type of the scalar leaf (nil for synthetic leaves like #len)
 	Kind   string     // "", "len", "cap", "off", "arr", "tag", "data"
+	Iface  types.Type // for tag leaves: the interface type
 }
 
 var leafCache = map[types.Type][]LeafSpec{}
@@ -117,34 +118,34 @@ func leafSpecs(t types.Type) []LeafSpec {
 	}
 	var out []LeafSpec
 	if s, ok := scalarSort(t); ok {
-		out = []LeafSpec{{"", s, t, ""}}
+		out = []LeafSpec{{Suffix: "", Sort: s, GoT: t}}
 	} else {
 		switch u := under(t).(type) {
 		case *types.Slice:
-			out = []LeafSpec{{"#arr", SInt, nil, "arr"}, {"#off", SInt, nil, "off"}, {"#len", SInt, nil, "len"}, {"#cap", SInt, nil, "cap"}}
+			out = []LeafSpec{{Suffix: "#arr", Sort: SInt, Kind: "arr"}, {Suffix: "#off", Sort: SInt, Kind: "off"}, {Suffix: "#len", Sort: SInt, Kind: "len"}, {Suffix: "#cap", Sort: SInt, Kind: "cap"}}
 		case *types.Interface:
-			out = []LeafSpec{{"#tag", SInt, nil, "tag"}, {"#data", SInt, nil, "data"}}
+			out = []LeafSpec{{Suffix: "#tag", Sort: SInt, Kind: "tag", Iface: t}, {Suffix: "#data", Sort: SInt, Kind: "data"}}
 		case *types.Struct:
 			for i := 0; i < u.NumFields(); i++ {
 				f := u.Field(i)
 				for _, l := range leafSpecs(f.Type()) {
-					out = append(out, LeafSpec{"." + f.Name() + l.Suffix, l.Sort, l.GoT, l.Kind})
+					out = append(out, LeafSpec{"." + f.Name() + l.Suffix, l.Sort, l.GoT, l.Kind, l.Iface})
 				}
 			}
 		case *types.Array:
 			for _, l := range leafSpecs(u.Elem()) {
-				out = append(out, LeafSpec{"[]" + l.Suffix, ArrSort(SInt, l.Sort), nil, "array"})
+				out = append(out, LeafSpec{Suffix: "[]" + l.Suffix, Sort: ArrSort(SInt, l.Sort), Kind: "array"})
 			}
 		case *types.Tuple:
 			for i := 0; i < u.Len(); i++ {
 				for _, l := range leafSpecs(u.At(i).Type()) {
-					out = append(out, LeafSpec{fmt.Sprintf("$%d%s", i, l.Suffix), l.Sort, l.GoT, l.Kind})
+					out = append(out, LeafSpec{fmt.Sprintf("$%d%s", i, l.Suffix), l.Sort, l.GoT, l.Kind, l.Iface})
 				}
 			}
 		case *types.TypeParam:
-			out = []LeafSpec{{"", SInt, nil, ""}}
+			out = []LeafSpec{{Sort: SInt}}
 		default:
-			out = []LeafSpec{{"", SInt, nil, ""}}
+			out = []LeafSpec{{Sort: SInt}}
 		}
 	}
 	leafCache[t] = out
